@@ -51,8 +51,8 @@ def from_array(flwdir, _mv=_mv, dtype=np.intp):
         if flwdir_flat[idx0] == _mv:
             continue
         dr, dc = drdc(flwdir_flat[idx0])
-        r_ds = int(idx0 // ncol + dr)
-        c_ds = int(idx0 % ncol + dc)
+        r_ds = int(idx0 // ncol) + int(dr)
+        c_ds = int(idx0 % ncol) + int(dc)
         pit = dr == 0 and dc == 0
         outside = r_ds >= nrow or c_ds >= ncol or r_ds < 0 or c_ds < 0
         idx_ds = c_ds + r_ds * ncol
